@@ -16,6 +16,8 @@ type tokAnchors struct {
 	next, peek, consume, readSkip, read *types.Func
 	readStr, parseOperator, unread      *types.Func
 	run                                 *ast.FuncDecl
+	readSkipDecl                        *ast.FuncDecl
+	flagIdx                             int // 1 + position of the comment flag among the parameters of readSkip (0: not determined yet)
 	missing                             []string
 }
 
@@ -39,10 +41,44 @@ func (c *Ctx) tokAnchors() *tokAnchors {
 	ta.consume = LookupMethod(root, "Tokenizer", "consume")
 	ta.readStr, ta.parseOperator, ta.unread = m("readStr"), m("parseOperator"), m("unread")
 	ta.run = c.FuncDecl(root, "Tokenizer", "run")
+	ta.readSkipDecl = c.FuncDecl(root, "Tokenizer", "readSkip")
 	if ta.run == nil {
 		ta.missing = append(ta.missing, "parser2.Tokenizer.run")
 	}
 	return ta
+}
+
+// readSkipFlagIndex: the position of the parameter of readSkip that is forwarded to next/peek (1 on the pinned tree).
+func (ta *tokAnchors) readSkipFlagIndex() int {
+	if ta.flagIdx != 0 {
+		return ta.flagIdx - 1
+	}
+	ta.flagIdx = 2 // default: the second parameter
+	if ta.readSkipDecl == nil || ta.readSkipDecl.Body == nil {
+		return 1
+	}
+	fd := ta.readSkipDecl
+	var params []types.Object
+	for _, f := range fd.Type.Params.List {
+		for _, nm := range f.Names {
+			params = append(params, ta.info.Defs[nm])
+		}
+	}
+	ast.Inspect(fd.Body, func(x ast.Node) bool {
+		call, ok := x.(*ast.CallExpr)
+		if !ok || len(call.Args) != 1 || !(isCallTo(ta.info, call, ta.next) || isCallTo(ta.info, call, ta.peek)) {
+			return true
+		}
+		if id, ok := ast.Unparen(call.Args[0]).(*ast.Ident); ok {
+			for i, p := range params {
+				if ta.info.ObjectOf(id) == p {
+					ta.flagIdx = i + 1
+				}
+			}
+		}
+		return true
+	})
+	return ta.flagIdx - 1
 }
 
 // skipArg returns the skipComment argument of a call to next/peek/consume/readSkip:
@@ -57,8 +93,9 @@ func (ta *tokAnchors) skipArg(call *ast.CallExpr, fd *ast.FuncDecl) (string, str
 		}
 		name = Callee(ta.info, call).Name()
 	case isCallTo(ta.info, call, ta.readSkip):
-		if len(call.Args) == 2 {
-			arg = call.Args[1]
+		// the comment flag of readSkip is the boolean parameter it hands to next/peek
+		if idx := ta.readSkipFlagIndex(); idx >= 0 && idx < len(call.Args) {
+			arg = call.Args[idx]
 		}
 		name = "readSkip"
 	default:
@@ -1296,7 +1333,7 @@ func ruleR157(c *Ctx) {
 	}
 	// 3. the readers of literals
 	checkReader := func(key string, fd *ast.FuncDecl, depth int) {
-		var bad []string
+		var bad, multi []string
 		n := 0
 		var visit func(fd *ast.FuncDecl, depth int)
 		visit = func(fd *ast.FuncDecl, depth int) {
@@ -1317,6 +1354,41 @@ func ruleR157(c *Ctx) {
 					n++
 					src := arg
 					if id, ok := arg.(*ast.Ident); ok {
+						if countAssignments(info, fd, info.ObjectOf(id)) > 1 {
+							// several definitions: all from readers that deliver runes as written, all from aliasing readers, or mixed
+							nAliased, nPlain := 0, 0
+							ast.Inspect(fd.Body, func(y ast.Node) bool {
+								as, ok := y.(*ast.AssignStmt)
+								if !ok || len(as.Lhs) != len(as.Rhs) {
+									return true
+								}
+								for i, l := range as.Lhs {
+									if li, ok := l.(*ast.Ident); ok && info.ObjectOf(li) == info.ObjectOf(id) {
+										if sc, ok := ast.Unparen(as.Rhs[i]).(*ast.CallExpr); ok {
+											if cal := Callee(info, sc); cal != nil && aliasedMethod[cal] {
+												nAliased++
+												continue
+											} else if cal != nil {
+												nPlain++
+												continue
+											}
+										}
+										nAliased, nPlain = nAliased+1, nPlain+1 // something else: mixed
+									}
+								}
+								return true
+							})
+							switch {
+							case nAliased == 0:
+								// every definition is a reader that delivers the rune as written
+							case nPlain == 0:
+								bad = append(bad, fmt.Sprintf("%s writes the rune delivered by a reader that replaces the typographic aliases", declName(root, fd)))
+							default:
+								// c := t.next(..); if raw { c = t.lastRaw }: which rune is written depends on the path
+								multi = append(multi, fmt.Sprintf("%s writes %s, which is assigned more than once", declName(root, fd), id.Name))
+							}
+							return true
+						}
 						if as, i := definingAssign(info, fd, info.ObjectOf(id)); as != nil && len(as.Lhs) == len(as.Rhs) {
 							src = ast.Unparen(as.Rhs[i])
 						}
@@ -1345,6 +1417,8 @@ func ruleR157(c *Ctx) {
 		switch {
 		case len(bad) > 0:
 			c.Violation(key, fd.Pos(), "%s: a literal containing • × ÷ – ˆ does not denote its exact content", strings.Join(bad, "; "))
+		case len(multi) > 0:
+			c.Undecided(key, fd.Pos(), "%s: whether the rune is the one as written depends on the path (a mode flag); the rule follows single definitions only", strings.Join(multi, "; "))
 		case n == 0:
 			c.Undecided(key, fd.Pos(), "no rune is written by this reader")
 		default:
